@@ -437,7 +437,7 @@ pub fn sum_oracle(rep: &mut Report, tag: &str, rs: &Results, fd: &[FnDump]) -> O
 // ---------------------------------------------------------------------------------------------
 // stream: several functions that share a file and lines, five format versions
 
-const VERSIONS: &[u32] = &[42, 48, 48, 80, 93, 101];
+const VERSIONS: &[u32] = &[42, 48, 48, 80, 93, 101, 46, 47, 49, 79, 81, 89, 90, 90, 91];
 
 fn synthetic(rep: &mut Report, rng: &mut Rng, reqs: &mut Vec<String>, want: &mut Vec<(String, Value, &'static str)>) {
     let n = rep.budget(260, 20);
@@ -582,11 +582,19 @@ fn programs(rep: &mut Report, reqs: &mut Vec<String>, want: &mut Vec<(String, Va
         ("range", RANGE_PROG, "800*"),
         ("range", RANGE_PROG, "A93*"),
         ("range", RANGE_PROG, "B01*"),
+        // the thresholds of the reader (90: cwd string, 80: new layout, 47: cfg checksum) met exactly
+        ("range", RANGE_PROG, "A90*"),
+        ("range", RANGE_PROG, "A89*"),
+        ("range", RANGE_PROG, "709*"),
+        ("wrapped", WRAPPED_PROG, "407*"),
+        ("wrapped", WRAPPED_PROG, "406*"),
         ("wrapped", WRAPPED_PROG, "408*"),
         ("wrapped", WRAPPED_PROG, "402*"),
     ];
     if rep.thorough() {
-        jobs.push(("wrapped", WRAPPED_PROG, "407*"));
+        jobs.push(("range", RANGE_PROG, "900*"));
+        jobs.push(("range", RANGE_PROG, "A91*"));
+        jobs.push(("range", RANGE_PROG, "801*"));
         jobs.push(("range", RANGE_PROG, "408*"));
         jobs.push(("wrapped", WRAPPED_PROG, "800*"));
     }
